@@ -370,6 +370,15 @@ def random_model(rng, cls, enc, nsec=None, nseg=None, max_data=96, typed=None, p
         if kinds[i] in ("dynamic", "symtab", "dynsym"):
             rec = DYNSIZE[cls] if kinds[i] == "dynamic" else SYMSIZE[cls]
             secs[-1]["sh_entsize"] = rng.choice([rec] * 6 + [0, 1, rec - 1, rec + 1, 2 * rec, 1 << 31, (1 << (8 * aw)) - 1, len(data or b""), len(data or b"") + 1])
+            if rng.random() < 0.15 and data:
+                # the record size of the OTHER class (or a smaller stride) with a size that is a multiple of it:
+                # the last record of the file's own class then reaches beyond the section
+                other = (DYNSIZE if kinds[i] == "dynamic" else SYMSIZE)[64 if cls == 32 else 32]
+                es = rng.choice([other, other, rec - 8, rec // 2, rec - 4])
+                if es > 0:
+                    k = max(1, len(data) // es)
+                    data = (data + bytes(es))[:k * es]
+                    secs[-1]["data"] = data; secs[-1]["sh_size"] = len(data); secs[-1]["sh_entsize"] = es
             secs[-1]["sh_link"] = rng.choice([tlink] * 6 + [0, i, nsec - 1, nsec, 0xffff, 0x10000 + tlink, (1 << 32) - 1, shstrndx])
     pieces = [("sht", -1, shentsize * nsec), ("pht", -1, phentsize * nseg)] + \
              [("sec", i, len(s["data"])) for i, s in enumerate(secs) if s["data"] is not None]
